@@ -137,7 +137,7 @@ theorem sim_all {m : Meta} {a b : Node} {ca cb : List LInstr} {ci cs car c0 : Na
     (fun k st scs σ coll h => pro_begin k st scs σ coll h) ?_
     (fun coll N k st scs σ sc' accF r σ' h _ _ hev => epi_const (.inl ⟨rfl, rfl⟩) k st scs σ sc' r σ' h hev)
     (fun k st scs σ sc' v h _ => exit_end (.inl rfl) k st scs σ sc' v h)
-  intro coll N k0 st scs hle i acc σ res σ1 sc hiN hbase _ hfb
+  intro coll N k0 st scs hle _ i acc σ res σ1 sc hiN hbase _ hfb
   have hbody := loopCode_body hle
   unfold fbQuant at hfb
   unfold BodyPost
@@ -177,7 +177,7 @@ theorem sim_none {m : Meta} {a b : Node} {ca cb : List LInstr} {ci cs car c0 : N
     (fun k st scs σ coll h => pro_begin k st scs σ coll h) ?_
     (fun coll N k st scs σ sc' accF r σ' h _ _ hev => epi_const (.inl ⟨rfl, rfl⟩) k st scs σ sc' r σ' h hev)
     (fun k st scs σ sc' v h _ => exit_end (.inl rfl) k st scs σ sc' v h)
-  intro coll N k0 st scs hle i acc σ res σ1 sc hiN hbase _ hfb
+  intro coll N k0 st scs hle _ i acc σ res σ1 sc hiN hbase _ hfb
   have hbody := loopCode_body hle
   unfold fbQuant at hfb
   unfold BodyPost
@@ -226,7 +226,7 @@ theorem sim_any {m : Meta} {a b : Node} {ca cb : List LInstr} {ci cs car c0 : Na
     (fun k st scs σ coll h => pro_begin k st scs σ coll h) ?_
     (fun coll N k st scs σ sc' accF r σ' h _ _ hev => epi_const (.inr ⟨rfl, rfl⟩) k st scs σ sc' r σ' h hev)
     (fun k st scs σ sc' v h _ => exit_end (.inr rfl) k st scs σ sc' v h)
-  intro coll N k0 st scs hle i acc σ res σ1 sc hiN hbase _ hfb
+  intro coll N k0 st scs hle _ i acc σ res σ1 sc hiN hbase _ hfb
   have hbody := loopCode_body hle
   unfold fbQuant at hfb
   unfold BodyPost
